@@ -93,6 +93,7 @@ def run_cases(check: str, tier: str, seed: int, cases: list[dict], out) -> None:
         ctx.audit.enabled = True
         ctx.inflate.reset()
         _core.LIVE_PROXIES.clear()
+        _core.ALL_PROXIES.clear()
         if ctx.steps is not None:
             ctx.steps.begin_case(case.get("step_budget", default_budget))
         if use_mem:
@@ -100,10 +101,22 @@ def run_cases(check: str, tier: str, seed: int, cases: list[dict], out) -> None:
         rec: dict = {"cid": case["cid"]}
         try:
             res = mod.run(case, ctx)
+            if getattr(mod, "HANDLE_CLOSE_CHECK", False):
+                # every stream object of the case has gone out of scope by now: dropping them (or anything done before) must
+                # not have closed a handle that belongs to the caller
+                import gc
+
+                gc.collect()
+                closed = [p for p in _core.ALL_PROXIES if p.closed_by_callee]
+                res.setdefault("cnt", {})["handles_checked_after_drop"] = len(_core.ALL_PROXIES)
+                if closed:
+                    res.setdefault("viol", []).append({"what": "a caller-supplied handle was closed by the library", "mech": "handle.closed",
+                                                       "detail": {"closed_from": getattr(closed[0], "closed_from", "?"), "handles": len(closed)}})
             rec.update(res)
         except monitors.StepBudgetExceeded as e:
             ctx.steps.budget = None  # the abort has arrived: stop raising
             ctx.steps.cpu_budget = None
+            ctx.steps.mem_budget = None
             rec["viol"] = [
                 {
                     "what": "step-budget-exceeded",
